@@ -130,9 +130,10 @@ CLAIMED["C13"] = dict(
 CLAIMED["C14"] = dict(
     technique="Coq proof (lock-ranking deadlock freedom and atomic-section theorems over the protocol extracted from the server source) + lock-site trace conformance + concurrent stress with injected delays",
     text="Kernel-checked: every handler and background task of the protocol extracted on every run acquires the mutexes in one global rank order (C14_protocol_ranked), so no reachable configuration of any number of concurrent handler instances and the tasks is a deadlock (C14_no_deadlock, induction over reachability); "
-         "every read of dictionary+preferences and every commit happens inside one critical section (C14_reads_and_commits_atomic), a registered entry's words are merged in ONE dictionary section (C14_entry_atomic). "
+         "every read of dictionary+preferences and every commit happens while its guarding mutexes are held (C14_reads_and_commits_atomic) and, in EVERY reachable configuration, held by nobody else (C14_guarded_exclusive, induction over reachability with the mutual-exclusion invariant): "
+         "while a conversion is at its read no other thread is at a read or commit of dictionary or learned data (C14_read_is_snapshot), i.e. the read is one atomic snapshot ordered between the commits; a registered entry's words are merged in ONE dictionary section (C14_entry_atomic). "
          "Every run validates the extraction against the lock-site trace of the running server and drives 1..32 concurrent connections with sleeps injected at the lock sites; outcomes must be sequentially explainable.",
-    note="partial: 'every conversion response equals a sequential server's for some admissible state' follows from atomic sections + the sequential model (C05-C08) informally; the linearisation argument itself is not mechanised; interleavings are sampled only to validate the extraction. Fair scheduling assumed for completion. " + PROTO_NOTE,
+    note="partial: the linearisation points (the read step, each commit step) are shown exclusive and therefore totally ordered per mutex; that the value computed from a snapshot equals the sequential model's answer is C05-C08's correspondence, not a composed theorem; interleavings are sampled only to validate the extraction. Fair scheduling assumed for completion. " + PROTO_NOTE,
     ref="6/C14")
 CLAIMED["C15"] = dict(
     technique="Coq proof (ordering facts over the extracted handler programs) + real-server confirmation immediately after the response with delays injected",
